@@ -346,11 +346,13 @@ class ExcelInPython:
 
     def _roundup(self, number: float, num_digits: int):
         factor = 10 ** num_digits
-        return ceil(number * factor) / factor
+        # away from zero
+        return (ceil(number * factor) if number >= 0 else floor(number * factor)) / factor
 
     def _rounddown(self, number: float, num_digits: int):
         factor = 10 ** num_digits
-        return floor(number * factor) / factor
+        # toward zero
+        return (floor(number * factor) if number >= 0 else ceil(number * factor)) / factor
 
     def _date(self, year: int, month: int, day: int):
         if isinstance(year, str):
